@@ -1,3 +1,4 @@
 pub mod lexemes;
 pub mod strings;
 pub mod programs;
+pub mod modelgen;
